@@ -293,6 +293,36 @@ theorem C07_concrete_anonymous_handler (cfg : Cfg) (e : Env) (p : E2E.Prepared) 
     refine ⟨(C07_concrete_anon_iff_no_material e p w vh).mp hres, ?_⟩
     exact afterSig_anonymous cfg rm op ev hev
 
+/-! ## the same, from the request on the wire (`ops::prepare` up to and including `SignatureContext::check`) -/
+
+/-- a request on the wire goes on as anonymous exactly when `ops::prepare` gets as far as the signature check (no
+    early error: undecodable path, invalid bucket name, header value that is no string, …) and the context it built
+    carries no signature material -/
+theorem C07_concrete_wire_anon_iff (e : Env) (w : E2E.Wire) (vh : Option Bytes) :
+    dispatch e w vh = .anon ↔ ∃ p, E2E.prepareCtx w = .ok p ∧ NoMaterial p := by
+  unfold dispatch
+  cases hp : E2E.prepareCtx w with
+  | error early =>
+    cases early <;> simp
+  | ok p =>
+    simp only [Except.ok.injEq, exists_eq_left']
+    exact C07_concrete_anon_iff_no_material e p w vh
+
+/-- a request on the wire gets credentials for `ak` only if `ops::prepare` reached the signature check, a provider is
+    configured, and the accept conditions of the branch taken hold for `ak` -/
+theorem C07_concrete_wire_accept_is_verified (e : Env) (w : E2E.Wire) (vh : Option Bytes) (path : Path) (ak : Bytes)
+    (r s : Option Bytes) (h : dispatch e w vh = .accept path ak r s) :
+    ∃ p look, E2E.prepareCtx w = .ok p ∧ e.auth = some look ∧ AcceptConditions e look p w vh path ak r s := by
+  unfold dispatch at h
+  cases hp : E2E.prepareCtx w with
+  | error early =>
+    rw [hp] at h
+    cases early <;> cases h
+  | ok p =>
+    rw [hp] at h
+    obtain ⟨look, hl, hacc⟩ := C07_concrete_accept_is_verified e p w vh path ak r s h
+    exact ⟨p, look, rfl, hl, hacc⟩
+
 /-! ## non-vacuity: one request on the wire per branch that `ops::prepare` + `SignatureContext::check` accepts
 
 The crypto parameters are constant functions (the theorems hold for arbitrary ones): every HMAC-SHA-256 is 32 zero
